@@ -210,6 +210,23 @@ pub fn string_char_at(
     }
 }
 
+/// Length in characters: the unit of every position the string methods take and return
+pub(super) fn char_len(s: &str) -> usize {
+    s.chars().count()
+}
+
+/// Byte offset of character position `pos`; the end of the string when `pos` is at or beyond it
+pub(super) fn byte_offset(s: &str, pos: usize) -> usize {
+    s.char_indices().nth(pos).map(|(b, _)| b).unwrap_or(s.len())
+}
+
+/// Character position of a byte offset that lies on a character boundary
+pub(super) fn char_position(s: &str, byte: usize) -> usize {
+    s.get(..byte)
+        .map(|prefix| prefix.chars().count())
+        .unwrap_or(0)
+}
+
 pub fn string_index_of(
     interp: &mut Interpreter,
     this: JsValue,
@@ -222,18 +239,15 @@ pub fn string_index_of(
     };
     let from_index = args.get(1).map(|v| v.to_number() as usize).unwrap_or(0);
 
-    if from_index >= s.len() {
-        return Ok(Guarded::unguarded(JsValue::Number(-1.0)));
-    }
-
-    // Use get() for safe slicing - from_index is validated above to be < len
+    // Positions count characters; the search itself runs on bytes
+    let start = byte_offset(s.as_str(), from_index);
     match s
         .as_str()
-        .get(from_index..)
+        .get(start..)
         .and_then(|slice| slice.find(search.as_str()))
     {
         Some(pos) => Ok(Guarded::unguarded(JsValue::Number(
-            (from_index + pos) as f64,
+            char_position(s.as_str(), start + pos) as f64,
         ))),
         None => Ok(Guarded::unguarded(JsValue::Number(-1.0))),
     }
@@ -249,7 +263,7 @@ pub fn string_last_index_of(
         Some(v) => interp.to_js_string(v),
         None => interp.intern(""),
     };
-    let len = s.len();
+    let len = char_len(s.as_str());
 
     // Default from_index is length of string
     let from_index = if let Some(arg) = args.get(1) {
@@ -270,14 +284,18 @@ pub fn string_last_index_of(
         )));
     }
 
-    // Search backwards from from_index
-    let search_end = (from_index + search.len()).min(len);
+    // Search backwards from from_index (positions count characters)
+    let search_end = from_index
+        .saturating_add(char_len(search.as_str()))
+        .min(len);
     match s
         .as_str()
-        .get(..search_end)
+        .get(..byte_offset(s.as_str(), search_end))
         .and_then(|slice| slice.rfind(search.as_str()))
     {
-        Some(pos) => Ok(Guarded::unguarded(JsValue::Number(pos as f64))),
+        Some(pos) => Ok(Guarded::unguarded(JsValue::Number(
+            char_position(s.as_str(), pos) as f64,
+        ))),
         None => Ok(Guarded::unguarded(JsValue::Number(-1.0))),
     }
 }
@@ -288,7 +306,7 @@ pub fn string_at(
     args: &[JsValue],
 ) -> Result<Guarded, JsError> {
     let s = interp.to_js_string(&this);
-    let len = s.len() as isize;
+    let len = char_len(s.as_str()) as isize;
     let index = if let Some(v) = args.first() {
         interp.coerce_to_number(v)? as isize
     } else {
@@ -323,13 +341,9 @@ pub fn string_includes(
     };
     let from_index = args.get(1).map(|v| v.to_number() as usize).unwrap_or(0);
 
-    if from_index >= s.len() {
-        return Ok(Guarded::unguarded(JsValue::Boolean(search.is_empty())));
-    }
-
     Ok(Guarded::unguarded(JsValue::Boolean(
         s.as_str()
-            .get(from_index..)
+            .get(byte_offset(s.as_str(), from_index)..)
             .map(|slice| slice.contains(search.as_str()))
             .unwrap_or(false),
     )))
@@ -347,13 +361,9 @@ pub fn string_starts_with(
     };
     let position = args.get(1).map(|v| v.to_number() as usize).unwrap_or(0);
 
-    if position >= s.len() {
-        return Ok(Guarded::unguarded(JsValue::Boolean(search.is_empty())));
-    }
-
     Ok(Guarded::unguarded(JsValue::Boolean(
         s.as_str()
-            .get(position..)
+            .get(byte_offset(s.as_str(), position)..)
             .map(|slice| slice.starts_with(search.as_str()))
             .unwrap_or(false),
     )))
@@ -372,9 +382,9 @@ pub fn string_ends_with(
     let end_position = args
         .get(1)
         .map(|v| v.to_number() as usize)
-        .unwrap_or(s.len());
+        .unwrap_or(usize::MAX);
 
-    let end = end_position.min(s.len());
+    let end = byte_offset(s.as_str(), end_position);
     Ok(Guarded::unguarded(JsValue::Boolean(
         s.as_str()
             .get(..end)
@@ -389,10 +399,12 @@ pub fn string_slice(
     args: &[JsValue],
 ) -> Result<Guarded, JsError> {
     let s = interp.to_js_string(&this);
-    let len = s.len() as i64;
+    let len = char_len(s.as_str()) as i64;
 
     let start_arg = args.first().map(|v| v.to_number() as i64).unwrap_or(0);
-    let end_arg = super::given(args, 1).map(|v| v.to_number() as i64).unwrap_or(len);
+    let end_arg = super::given(args, 1)
+        .map(|v| v.to_number() as i64)
+        .unwrap_or(len);
 
     let start = if start_arg < 0 {
         (len + start_arg).max(0)
@@ -426,7 +438,7 @@ pub fn string_substring(
     args: &[JsValue],
 ) -> Result<Guarded, JsError> {
     let s = interp.to_js_string(&this);
-    let len = s.len();
+    let len = char_len(s.as_str());
 
     let start = args
         .first()
@@ -736,7 +748,7 @@ pub fn string_replace(
                                 None => call_args.push(JsValue::Undefined),
                             }
                         }
-                        call_args.push(JsValue::Number(m.start as f64));
+                        call_args.push(JsValue::Number(char_position(&s, m.start) as f64));
                         call_args.push(JsValue::String(JsString::from(s.clone())));
 
                         let replace_result = interp.call_function(
@@ -782,7 +794,7 @@ pub fn string_replace(
         if let Some(start) = s.find(&search) {
             let call_args = vec![
                 JsValue::String(JsString::from(search.clone())),
-                JsValue::Number(start as f64),
+                JsValue::Number(char_position(&s, start) as f64),
                 JsValue::String(JsString::from(s.clone())),
             ];
 
@@ -1011,7 +1023,11 @@ pub fn string_code_point_at(
     let s = interp.to_js_string(&this);
     // ToIntegerOrInfinity: NaN is 0, fractions truncate
     let index = args.first().map(|v| v.to_number()).unwrap_or(0.0);
-    let index = if index.is_nan() { 0.0 } else { math::trunc(index) };
+    let index = if index.is_nan() {
+        0.0
+    } else {
+        math::trunc(index)
+    };
 
     // A negative position is out of range
     if index < 0.0 {
@@ -1118,8 +1134,10 @@ pub fn string_match(
 
                 // Add index property
                 let index_key = PropertyKey::String(interp.intern("index"));
-                arr.borrow_mut()
-                    .set_property(index_key, JsValue::Number(m.start as f64));
+                arr.borrow_mut().set_property(
+                    index_key,
+                    JsValue::Number(char_position(&s, m.start) as f64),
+                );
 
                 // Add input property
                 let input_key = PropertyKey::String(interp.intern("input"));
@@ -1206,8 +1224,10 @@ pub fn string_match_all(
         // Add index property
         let index_key = PropertyKey::String(interp.intern("index"));
         let match_start = caps.get(0).map(|m| m.start()).unwrap_or(0);
-        arr.borrow_mut()
-            .set_property(index_key, JsValue::Number(match_start as f64));
+        arr.borrow_mut().set_property(
+            index_key,
+            JsValue::Number(char_position(&s, match_start) as f64),
+        );
 
         // Add input property
         let input_key = PropertyKey::String(interp.intern("input"));
@@ -1268,7 +1288,9 @@ pub fn string_search(
     let re = interp.compile_regexp(&pattern, &flags)?;
 
     match re.find(&s, 0).map_err(JsError::type_error)? {
-        Some(m) => Ok(Guarded::unguarded(JsValue::Number(m.start as f64))),
+        Some(m) => Ok(Guarded::unguarded(JsValue::Number(
+            char_position(&s, m.start) as f64,
+        ))),
         None => Ok(Guarded::unguarded(JsValue::Number(-1.0))),
     }
 }
